@@ -267,16 +267,6 @@ def proof_stage(pid, tier):
     except RuntimeError as e:
         res["problems"].append(str(e))
         return res
-    if tier == "thorough":
-        # rebuild this property's own proof files from scratch
-        for f in files:
-            if "/Lib/" in f:
-                continue
-            for ext in (".vo", ".glob", ".vos", ".vok"):
-                try:
-                    os.remove(f[:-2] + ext)
-                except OSError:
-                    pass
     rc, out = coq_build(pid)
     res["checker_cmd"] = (f"cd {COQ} && coqc -Q theories AHK <each of the {len(files)} files Props/{pid}.v depends on, in order> "
                           f"(full .vo; setup_cmd additionally runs coq_makefile + make -j16 over everything and coqchk -o); "
@@ -336,6 +326,13 @@ def proof_stage(pid, tier):
             an = a.split(":")[0].strip()
             if an not in allowed:
                 res["problems"].append(f"theorem {name} depends on unexpected axiom {an}")
+    if tier == "thorough" and not res["problems"]:
+        # independent re-check of the compiled property file and everything it depends on
+        rc, out = sh(f"timeout 1500 coqchk -silent -o -Q theories AHK AHK.Props.{pid}", cwd=COQ, timeout=1600)
+        res["coqchk"] = " ".join(out.split())[-700:]
+        res["checker_cmd"] += f" ; coqchk -silent -o -Q theories AHK AHK.Props.{pid}"
+        if rc != 0:
+            res["problems"].append("coqchk failed: " + out[-800:])
     res["discharged"] = len([t for t in theorems if t in res["axioms"]]) if not res["problems"] else 0
     res["ok"] = not res["problems"] and res["discharged"] == res["obligations"] and res["obligations"] > 0
     return res
@@ -438,6 +435,8 @@ def run_check(pid, tier, replay=None):
     chk = os.path.join(BUILD, "coqchk.txt")
     if os.path.exists(chk):
         trusted.append("coqchk -o (setup): " + " ".join(open(chk).read().split())[:600])
+    if pr.get("coqchk"):
+        trusted.append("coqchk -o (this run): " + pr["coqchk"])
     trusted += cov.pop("trusted_base_extra", [])
     coverage = dict(
         obligations=pr["obligations"], discharged=pr["discharged"], checker_cmd=pr["checker_cmd"],
